@@ -598,7 +598,12 @@ pub(super) fn translate_cid(cid: rq::CId, ctx: &mut Context) -> Result<ExprOrSou
             ColumnDecl::RelationColumn(riid, _, col) => {
                 let column = match col.clone() {
                     rq::RelationColumn::Wildcard => translate_star(ctx, None)?,
-                    rq::RelationColumn::Single(name) => name.unwrap(),
+                    rq::RelationColumn::Single(Some(name)) => name,
+                    rq::RelationColumn::Single(None) => {
+                        return Err(Error::new_simple(
+                            "cannot refer to a column that has no name; give the expression a name",
+                        ));
+                    }
                 };
                 let t = &ctx.anchor.relation_instances[riid];
 
